@@ -1324,13 +1324,13 @@ func E6WindingMode(c *core.Ctx, r *core.Report) {
 				switch se.Sel.Name {
 				case "SetWinding":
 					if len(call.Args) == 1 {
-						arg := types.ExprString(call.Args[0])
 						mode := "other"
-						switch {
-						case arg == "true":
-							mode = "nonzero"
-						case strings.Contains(arg, "FillRule"):
-							mode = "fillrule"
+						if tv, ok := info.Types[call.Args[0]]; ok && tv.Value != nil && tv.Value.Kind() == constant.Bool {
+							if constant.BoolVal(tv.Value) {
+								mode = "nonzero"
+							}
+						} else if exprReadsFillRule(info, call.Args[0]) {
+							mode = "fillrule" // which mode each rule gets is decided by E6.fill-rule-map
 						}
 						ns := S{}
 						for k := range out {
@@ -2243,4 +2243,20 @@ func E6FillRuleMap(c *core.Ctx, r *core.Report) {
 	})
 	r.Count("E6.fill-rule-sites", n)
 	r.Floor("E6.fill-rule-sites", 1)
+}
+
+// exprReadsFillRule: the expression contains a non-constant operand of the named type FillRule.
+func exprReadsFillRule(info *types.Info, e ast.Expr) bool {
+	found := false
+	ast.Inspect(e, func(n ast.Node) bool {
+		if x, ok := n.(ast.Expr); ok {
+			if tv, ok := info.Types[x]; ok && tv.Value == nil {
+				if nt, ok := tv.Type.(*types.Named); ok && nt.Obj().Name() == "FillRule" {
+					found = true
+				}
+			}
+		}
+		return true
+	})
+	return found
 }
